@@ -11,7 +11,7 @@ checked to be admissible, step by step, by the correspondence run (`corr sync`).
 
 Only property theorems (and their non-vacuity examples) live here.
 -/
-import AnySyncModel.Sync.Phase
+import AnySyncModel.Sync.Stream
 
 namespace AnySync.Sync
 
@@ -97,6 +97,30 @@ theorem antiEntropy_joins (n : Nat) (s : State) (h : Reachable n s) (r q : Nat)
       (∀ z, z ≠ r → z ≠ q → s'.get z = s.get z) := by
   obtain ⟨s', hs, _, h1, h2, h3⟩ := antiEntropy_spec s r q (reachable_inv h) hr hq hne
   exact ⟨s', hs, h1, h2, h3⟩
+
+/-- **Any admissible response stream joins.**  Whatever answer `step` accepts for a full-sync
+request (any batching, any cut — in particular the answers of the real responder, which the
+correspondence run validates with this very predicate): a requester that still holds what it held
+when it asked (`hv`; sets only grow) and applies the batches in order ends up holding everything the
+responder held, stays ancestor-closed, and gains nothing but the responder's changes. -/
+theorem response_stream_joins (g : Dag) (S hv T : List Nat) (resps : List (List Nat × List Nat))
+    (hwf : WF g) (hbS : Bounded g S) (hT : Closed g T) (hhv : ∀ x ∈ hv, x ∈ T)
+    (hvalid : validResps g S hv resps = true) :
+    (∀ x ∈ S, x ∈ applyBatches g T resps) ∧ Closed g (applyBatches g T resps) ∧
+    (∀ x, x ∈ applyBatches g T resps → x ∈ T ∨ x ∈ S) := by
+  simp only [validResps, Bool.and_eq_true, mem_hasAll, List.all_eq_true] at hvalid
+  obtain ⟨⟨⟨_, hheld⟩, hcum⟩, hcomplete⟩ := hvalid
+  have hsub : ∀ x ∈ batchChanges resps, x ∈ S := by
+    intro x hx
+    simp only [batchChanges, List.mem_flatMap] at hx
+    obtain ⟨hc, hmem, hxc⟩ := hx
+    exact (hheld hc hmem).2 x hxc
+  refine ⟨?_, applyBatches_closed g T resps hT, ?_⟩
+  · intro x hx
+    apply applyBatches_complete g hwf hv T resps hhv (fun y hy => hbS y (hsub y hy)) hcum
+    exact List.mem_append.1 (hcomplete x hx)
+  · intro x hx
+    exact (applyBatches_sub g T resps x hx).imp id (hsub x)
 
 /-- The reference resolution of any delivery is accepted by `step` in every reachable state: the
 validation in `step` never rejects the protocol itself (non-vacuity of "every run"). -/
@@ -221,6 +245,12 @@ example : (run (init 2) demoOps).map (fun s => (s.sets, s.net.map (·.1))) =
 example : ((run (init 2) demoOps).bind (fun s => antiEntropy s 1 0)).map
     (fun s => (canon s.dag (s.get 0), canon s.dag (s.get 1), heads s.dag (s.get 0), heads s.dag (s.get 1))) =
     some ([0, 1, 2, 3], [0, 1, 2, 3], [2, 3], [2, 3]) := by decide
+
+/-- a two-batch answer that is admissible, applied in order — and the same batches in the wrong
+order, where only the first batch's change attaches later -/
+example : validResps [[], [0], [1]] [0, 1, 2] [0] [([1], [1]), ([2], [2])] = true ∧
+    applyBatches [[], [0], [1]] [0] [([1], [1]), ([2], [2])] = [0, 1, 2] ∧
+    applyBatches [[], [0], [1]] [0] [([2], [2]), ([1], [1])] = [0, 1] := by decide
 
 /-- a resolution that omits a required request is rejected -/
 example : run (init 2) [.add 0 1 [0], .add 0 2 [1], .drop 0, .deliver 1 false false []] = none := by
